@@ -255,6 +255,12 @@ def gen_exprs(tier, rng):
     from pymbolic.polynomial import Polynomial
     level1 += [Polynomial(x, ((0, 1), (2, 3))), Polynomial(x, ((1, y), (3, 2))), Polynomial(p.Sum((x, 1)), ((2, 1),)), Polynomial(y, ((0, x), (2, p.Product((x, x))))),
                Polynomial(y, ((1, 2), (4, -1))), Polynomial(x, ((0, a0), (1, x), (2, y))), p.Product((2, Polynomial(x, ((3, 1),)))), p.Sum((Polynomial(a0, ((1, x), (2, 3))), y))]
+    # powers of powers with constant exponents of which the outer one is not an integer (|x| = (x**2)**0.5 and relatives: the inner power is positive where
+    # the base is negative), and non-integer constant exponents in general
+    sq = p.Power(x, 2)
+    level1 += [p.Power(sq, 0.5), p.Power(sq, 1.5), p.Power(p.Power(x, 4), 0.25), p.Power(p.Power(p.Sum((x, y)), 2), 0.5), p.Product((p.Power(sq, 0.5), y)),
+               p.Quotient(y, p.Power(p.Power(p.Sum((x, 1)), 2), 0.5)), p.Power(p.Power(x, 2), p.Quotient(1, 2)), p.Power(p.Sum((sq, 1)), 0.5), p.Power(p.Sum((sq, 1)), -1.5),
+               p.Power(p.Power(p.Sum((sq, 1)), 3), 0.5), p.Power(p.Power(x, -2), 0.5), p.Sum((p.Power(sq, 0.5), p.Power(p.Power(y, 2), 0.5)))]
     level1 += [p.Sum((x, y, a0)), p.Product((x, y, a0)), p.Product((x, x, x, y)), p.Sum(()), p.Product(()), p.Sum((x,)), p.Product((y,)),
                p.Sum((x, 2, y, a1, x)), p.Product((2, x, y, a1, x))]
     out = list(level1)
